@@ -61,13 +61,19 @@ RegisterLaw(e) ==
     { <<"C18.register_adds_exactly_one", e.outcome = "ok" /\ post = pre \cup {e.id} /\ e.others_unchanged
                                           /\ e.new_entry = e.expected_entry>> }
 
-MakeLaw(e) ==
+EntryClass == [P |-> "ProbeEnv", Q |-> "ProbeEnv2"]
+(* regs: what the SPECIFICATION knows was registered in this call sequence: id -> [entry, kwargs] (from the
+   arguments of the successful register calls, never read back from the implementation's registry). *)
+MakeLaw(e, regs) ==
   LET pre == AsSet(e.pre_ids) IN
-  { <<"C18.make_leaves_registry_unchanged", AsSet(e.post_ids) = pre>> }
+  { <<"C18.make_leaves_registry_unchanged", AsSet(e.post_ids) = pre /\ e.entries_unchanged>> }
   \cup
   (IF e.registered
-   THEN { <<"C18.make_class", e.outcome = "ok" /\ e.class = e.registered_entry>>,
-          <<"C18.make_kwargs_precedence", AsSet(e.seen_kwargs) = Override(e.registered_kwargs, e.call_kwargs)>> }
+   THEN { <<"C18.make_class", e.outcome = "ok" /\ e.class = e.registered_entry
+                               /\ (e.id \in DOMAIN regs => e.class = EntryClass[regs[e.id].entry])>>,
+          <<"C18.make_kwargs_precedence",
+               AsSet(e.seen_kwargs) = Override(IF e.id \in DOMAIN regs THEN regs[e.id].kwargs ELSE e.registered_kwargs,
+                                              e.call_kwargs)>> }
    ELSE { <<"C18.unknown_id_lists_registered", e.outcome = "raise:ValueError" /\ AsSet(e.listed_ids) = pre>> })
 
 ShippedLaw(e) ==
